@@ -147,7 +147,9 @@ func (g *c08Gen) value(d int) VT {
 			keys = append(keys, k)
 			vals = append(vals, g.value(d-1))
 		}
-		return vSMap(keys, vals)
+		m := vSMap(keys, vals)
+		m.Rep = r.Intn(2) // the keys as string or as a named string type
+		return m
 	case 2, 3:
 		n := r.Intn(4)
 		xs := make([]VT, n)
@@ -160,7 +162,9 @@ func (g *c08Gen) value(d int) VT {
 	case 5:
 		return vPtr(vStruct(g.value(d-1), g.leaf(), g.value(d-1)))
 	case 6:
-		return vIMap([]int64{1, 2}, []VT{g.value(d - 1), g.leaf()})
+		m := vIMap([]int64{1, 2}, []VT{g.value(d - 1), g.leaf()})
+		m.Rep = r.Intn(3) // int, int64 or uint8 keys
+		return m
 	}
 	n := r.Intn(4)
 	xs := make([]VT, n)
